@@ -37,17 +37,17 @@ pub struct Cx<'tcx> {
 
 impl<'tcx> Cx<'tcx> {
     pub fn path(&self, did: DefId) -> String {
-        ty::print::with_no_trimmed_paths!(self.tcx.def_path_str(did))
+        ty::print::with_no_visible_paths!(ty::print::with_no_trimmed_paths!(self.tcx.def_path_str(did)))
     }
     pub fn path_args(&self, did: DefId, args: GenericArgsRef<'tcx>) -> String {
-        ty::print::with_no_trimmed_paths!(self.tcx.def_path_str_with_args(did, args))
+        ty::print::with_no_visible_paths!(ty::print::with_no_trimmed_paths!(self.tcx.def_path_str_with_args(did, args)))
     }
     pub fn krate(&self, did: DefId) -> String {
         self.tcx.crate_name(did.krate).to_string()
     }
     /// Type as string; its structured tree is recorded once in the type table.
     pub fn ty(&self, t: Ty<'tcx>) -> String {
-        let s = ty::print::with_no_trimmed_paths!(t.to_string());
+        let s = ty::print::with_no_visible_paths!(ty::print::with_no_trimmed_paths!(t.to_string()));
         if !self.types.borrow().contains_key(&s) {
             self.types.borrow_mut().insert(s.clone(), J::Null);
             let tree = self.ty_tree(t);
